@@ -1,6 +1,7 @@
 SPECIFICATION SimSpec
 CONSTANTS
   WorkerCpus <- B_Workers
+  LateWorkers <- B_Late
   WorkerGroup <- B_Groups
   WorkerLife <- B_Life
   MaxTicks = 0
